@@ -71,8 +71,19 @@ def scenario_refusal():
     return finish_case(dict(nodes=nodes, fs0=fs0, steps=[("frontend", d0, True, True), ("build", "t"), ("write", "a", "1"), ("write", "m", "x"),
                                                          ("skip", ["c2"]), ("build", "t"), ("rm", "m"), ("build", "t")]))
 
+def scenario_msa():
+    """S34: a command writes into a directory input; the directory node lists its output under must-scan-after-paths"""
+    from bslib import node, cmd, make_desc, finish_case
+    nodes = {n: node("file", n) for n in ["a", "d/gen", "od"]}
+    nd = node("dir", "d", msa=["d/gen"]); nd["spell"] = "slash"; nodes["d/"] = nd
+    d0 = make_desc(dict(cw=cmd(ins=["a"], outs=["d/gen"], tag="cw"), cd=cmd(ins=["d/"], outs=["od"], tag="cd")), dict(t=["od"]), order=["cd", "cw"])
+    fs0 = {"a": dict(t="file", c="0"), "d/f1": dict(t="file", c="0"), "d/gen": dict(t="none", c=""), "od": dict(t="none", c="")}
+    return finish_case(dict(nodes=nodes, fs0=fs0, steps=[("frontend", d0, True, True), ("build", "t"), ("build", "t"), ("write", "a", "1"), ("build", "t"),
+                                                         ("frontend", d0, True, False), ("rm", "d/gen"), ("build", "t")]))
+
 SCENARIOS = {"C10": [("refused-command-hides-failure", scenario_refusal, "C10 delegate-refused command between a failed command and its consumer", "BuildSystemTraceStrict.cfg", "TRefusalHidesNoFailure")],
-             "C12": [("structure-of-a-file", scenario_structfile, "C12 filtered structure signature of a non-directory")], "C08": [("amo-input-change", scenario_amo, "C08 allow-modified-outputs: input change not rebuilt")]}
+             "C12": [("structure-of-a-file", scenario_structfile, "C12 filtered structure signature of a non-directory"),
+                     ("must-scan-after", scenario_msa, "C12 must-scan-after-paths from the build file")], "C08": [("amo-input-change", scenario_amo, "C08 allow-modified-outputs: input change not rebuilt")]}
 
 def run_scenarios(pid, binary, wd):
     out = []
